@@ -17,7 +17,7 @@ import hashlib
 
 import numpy as np
 
-from vf.monitors import STATE
+from vf.monitors import STATE, arg_mon
 
 HASH_LIMIT = 1 << 24          # bytes; larger arrays are sampled, not hashed fully
 
@@ -52,6 +52,8 @@ def install():
         cnt["apply:" + type(self).__name__] += 1
         is_arr = isinstance(input, np.ndarray)
         if is_arr:
+            if STATE.depth == 0:
+                arg_mon.observe(input)
             hin = digest(input)
             caps = [(k, v, digest(v)) for k, v in captured_arrays(self)]
             exact_in = tuple(input.shape) == tuple(self.ishape)
